@@ -134,7 +134,7 @@ def gen_case(rng, arm, tier, k=0):
         if arm == "dist" or r < 0.45:
             a = ref()
             b = a if rng.random() < 0.12 else ref()
-            ops.append(["dist", metric_for([style_of(a), style_of(b)]), rng.choice(("registry", "model")), a, b])
+            ops.append(["dist", metric_for([style_of(a), style_of(b)]), rng.choice(("registry", "model", "kw_xy", "kw_y")), a, b])
             if rng.random() < 0.3:
                 ops.append(list(ops[-1]))  # the same evaluation again
         elif r < 0.70:
@@ -299,9 +299,13 @@ def execute(op, w, scratch, tag):
     kind = op[0]
     if kind == "dist":
         _, name, via, a, b = op
-        fn = B.distance.DISTANCES[name] if via == "registry" else B.opf_mod.OPF(distance=name).distance_fn
+        fn = B.opf_mod.OPF(distance=name).distance_fn if via == "model" else B.distance.DISTANCES[name]
         x = w.get(a)
         y = x if a == b else w.get(b)
+        if via == "kw_xy":
+            return fn(x=x, y=y)  # the same call, arguments passed by keyword
+        if via == "kw_y":
+            return fn(x, y=y)
         return fn(x, y)
     if kind in ("fit", "fitpredict", "getdist"):
         _, mkind, metric, k, k2, max_k, min_k, use_labels = op
